@@ -425,6 +425,25 @@ var c08Special = []func() map[string]*gen.Template{
 			&gen.NBlock{Name: "sec", Body: []gen.Node{tx("section.")}}, &gen.NBlock{Name: "deeper", Body: []gen.Node{tx("Deeper.")}}, &gen.NBlock{Name: "row", Body: []gen.Node{tx("r"), pr(nm("i")), tx(".")}}}
 		return map[string]*gen.Template{"main": tpl("main", child...), "base": tpl("base", base...)}
 	},
+	func() map[string]*gen.Template { // a capturing construct that captures nothing has the empty text as its value - a string, not null
+		m := &gen.NMacro{Name: "nothing", Body: []gen.Node{&gen.NComment{S: " no output "}}}
+		fn := func(e gen.Expr) gen.Node { return pr(&gen.ECall{Fn: "fn", Args: []gen.Expr{e}}) }
+		base := []gen.Node{tx("B["), &gen.NBlock{Name: "void", Body: nil}, &gen.NBlock{Name: "filled", Body: []gen.Node{tx("F.")}}, &gen.NBlock{Name: "pv", Body: nil}, tx("]")}
+		child := []gen.Node{&gen.NExtends{Tpl: str("base")}, m, &gen.NBlock{Name: "filled", Body: []gen.Node{tx("("), fn(&gen.EBlockFn{Name: str("void")}), fn(&gen.EMethod{X: nm("_self"), Name: "nothing"}),
+			&gen.NSetCap{Name: "c", Body: nil}, fn(nm("c")), &gen.NSet{Name: "b", X: &gen.EBlockFn{Name: str("void")}}, fn(nm("b")), fn(&gen.EBin{Op: "~", L: nm("b"), R: &gen.EBlockFn{Name: str("void")}}),
+			&gen.NFilter{Filters: []string{"ident"}, Body: nil}, tx(")")}},
+			&gen.NBlock{Name: "pv", Body: []gen.Node{tx("<"), fn(&gen.EParent{}), &gen.NSet{Name: "p", X: &gen.EParent{}}, fn(nm("p")), tx(">")}}}
+		return map[string]*gen.Template{"main": tpl("main", child...), "base": tpl("base", base...)}
+	},
+	func() map[string]*gen.Template { // a filter section names filters; one that does not exist is an error whatever it is called
+		return map[string]*gen.Template{"main": tpl("main", tx("a"), &gen.NFilter{Filters: []string{"up", "raw"}, Body: []gen.Node{tx("x")}}, tx("b"))}
+	},
+	func() map[string]*gen.Template {
+		return map[string]*gen.Template{"main": tpl("main", tx("a"), &gen.NFilter{Filters: []string{"escape"}, Body: []gen.Node{tx("x")}}, tx("b"))}
+	},
+	func() map[string]*gen.Template {
+		return map[string]*gen.Template{"main": tpl("main", tx("a"), &gen.NFilter{Filters: []string{"e", "up"}, Body: []gen.Node{tx("x")}}, pr(&gen.EFilter{X: str("y"), Name: "raw"}), tx("b"))}
+	},
 	func() map[string]*gen.Template { // values produced inside do: a macro's, a block's, a capture handed on - the callee sees them
 		m := &gen.NMacro{Name: "m", Params: []string{"p"}, Body: []gen.Node{tx("M("), pr(nm("p")), tx(")")}}
 		return map[string]*gen.Template{"main": tpl("main", m, &gen.NBlock{Name: "b", Body: []gen.Node{tx("B.")}}, tx("|"),
